@@ -23,6 +23,7 @@ type Path struct {
 	Blocks []*ssa.BasicBlock
 	Succ   []int // successor index taken from Blocks[i]; -1 on the last block
 	Facts  []Fact
+	Cut    bool // the path ended because every onward edge was already used (it loops back), not at a return / panic
 }
 
 // Term is the final instruction of the path (Return, Panic, or the last instruction of a dead end).
@@ -161,6 +162,7 @@ type pathEnum struct {
 	used     map[[2]int]int
 	loopIter int
 	target   *ssa.BasicBlock
+	emitCut  bool
 }
 
 // EnumPaths enumerates the paths of fn from its entry block. visit returns false to stop early.
@@ -172,6 +174,14 @@ func EnumPaths(fn *ssa.Function, max int, visit func(*Path) bool) (int, bool) {
 func EnumPathsFrom(fn *ssa.Function, start *ssa.BasicBlock, max, loopIter int, visit func(*Path) bool) (int, bool) {
 	e := &pathEnum{fn: fn, max: max, visit: visit, used: map[[2]int]int{}, loopIter: loopIter}
 	e.dfs(start)
+	return e.n, e.trunc
+}
+
+// EnumPathsWithLoops is EnumPaths, but also emits (with Cut set) the paths that end by looping back onto an
+// edge they already used; typestate rules use it to see what is still outstanding when a loop iterates.
+func EnumPathsWithLoops(fn *ssa.Function, max int, visit func(*Path) bool) (int, bool) {
+	e := &pathEnum{fn: fn, max: max, visit: visit, used: map[[2]int]int{}, loopIter: 1, emitCut: true}
+	e.dfs(fn.Blocks[0])
 	return e.n, e.trunc
 }
 
@@ -257,11 +267,20 @@ func (e *pathEnum) dfs(b *ssa.BasicBlock) {
 				allowed = []int{0, 1}
 			}
 		}
+		progressed := false
+		defer func() {
+			if !progressed && e.emitCut && !e.stop {
+				e.succ = append(e.succ, -1)
+				e.emitWith(true)
+				e.succ = e.succ[:step]
+			}
+		}()
 		for _, si := range allowed {
 			key := [2]int{b.Index, si}
 			if e.used[key] >= e.loopIter {
 				continue
 			}
+			progressed = true
 			e.used[key]++
 			e.succ = append(e.succ, si)
 			nf := len(e.facts)
@@ -276,11 +295,13 @@ func (e *pathEnum) dfs(b *ssa.BasicBlock) {
 		}
 		return
 	}
+	progressed2 := false
 	for si := range b.Succs {
 		key := [2]int{b.Index, si}
 		if e.used[key] >= e.loopIter {
 			continue
 		}
+		progressed2 = true
 		e.used[key]++
 		e.succ = append(e.succ, si)
 		e.dfs(b.Succs[si])
@@ -290,16 +311,23 @@ func (e *pathEnum) dfs(b *ssa.BasicBlock) {
 			return
 		}
 	}
+	if !progressed2 && e.emitCut && !e.stop {
+		e.succ = append(e.succ, -1)
+		e.emitWith(true)
+		e.succ = e.succ[:step]
+	}
 }
 
-func (e *pathEnum) emit() {
+func (e *pathEnum) emit() { e.emitWith(false) }
+
+func (e *pathEnum) emitWith(cut bool) {
 	if e.n >= e.max {
 		e.trunc = true
 		e.stop = true
 		return
 	}
 	e.n++
-	p := &Path{Fn: e.fn, Blocks: append([]*ssa.BasicBlock{}, e.blocks...), Succ: append([]int{}, e.succ...), Facts: append([]Fact{}, e.facts...)}
+	p := &Path{Fn: e.fn, Blocks: append([]*ssa.BasicBlock{}, e.blocks...), Succ: append([]int{}, e.succ...), Facts: append([]Fact{}, e.facts...), Cut: cut}
 	if !e.visit(p) {
 		e.stop = true
 	}
